@@ -246,6 +246,18 @@ theorem genRoutes_bits_cover (sp : PathOracle) (d : Desc) (c : Compiled)
   simp only [List.mem_flatMap, List.mem_map]
   exact ⟨(src, routes), hs, (id, r), hr, rfl⟩
 
+/-- `route_t` is at least one bit wide, whatever the routes need (fix 2c0b8b9: also when no route exists or every
+    route takes zero bits, as between two endpoints that are wired to each other without a router) -/
+theorem genRoutes_bits_pos (sp : PathOracle) (d : Desc) (c : Compiled)
+    (out : List (NI × List (NodeId × Route))) (nb : Nat) (h : genRoutes sp d c = .ok (out, nb)) : 1 ≤ nb := by
+  unfold genRoutes at h
+  simp only [bind, Except.bind] at h
+  split at h
+  · cases h
+  simp only [pure, Except.pure, Except.ok.injEq, Prod.mk.injEq] at h
+  obtain ⟨_, rfl⟩ := h
+  exact le_foldl_max _ 1 1 (Or.inr (Nat.le_refl 1))
+
 /-! non-vacuity of the literal lemma: hops (4, 3 bits), (1, 1 bit), (2, 3 bits) in a 9-bit route_t -/
 example : litDigits (routeLit 9 (some [(4, 3), (1, 1), (2, 3)])) = "000101100".toList := by decide
 example : binValue "000101100".toList = C03.pack [(4, 3), (1, 1), (2, 3)] := by decide
